@@ -1005,3 +1005,115 @@ func TestVerifSimTeardownDeadline(t *testing.T) {
 	}
 	fmt.Printf("SIMTDDEADLINE cases=6 fails=%d\n", fails)
 }
+
+// ---------------------------------------------------------------- T1 failure callback racing with the handshake completion
+
+// tdRaceAttempt: the client's COOKIE-ECHO is answered, but the COOKIE-ACK is delivered exactly at the virtual
+// instant of T1-cookie's final expiry (t0 + 1+2+4+8+16+32+60+60+60 s).  Both become runnable together; which
+// one gets a.lock first is decided by the Go scheduler.  The model's residual witness
+// (coq/proofs/TeardownT1Proofs.v, td_witness_t1_abort) is the order: rtxTimer.timeout decides "failure",
+// the read loop takes a.lock and completes the handshake, the callback then blocks in completeHandshake(err)
+// under a.lock for ever.
+func tdRaceAttempt(t *testing.T, early bool, spin int) string {
+	done := make(chan string, 1)
+	go func() {
+		defer func() {
+			if r := recover(); r != nil {
+				done <- "panic:" + fmt.Sprint(r)
+			}
+		}()
+		out := "?"
+		synctest.Test(t, func(t *testing.T) {
+			s := newSim(t, tdOpts(false), "t1-callback-race")
+			s.startHandshake(false)
+			s.settle()
+			s.deliver(0, 0, false) // INIT
+			s.deliver(1, 0, false) // INIT-ACK: the client sends COOKIE-ECHO and starts T1-cookie
+			t0 := time.Now()
+			a := s.assoc[0]
+			if len(s.flight[0]) != 1 {
+				out = "broken: no COOKIE-ECHO"
+				s.closeBoth()
+				return
+			}
+			s.deliver(0, 0, false) // COOKIE-ECHO: the server is established, its COOKIE-ACK is parked
+			if len(s.flight[1]) != 1 {
+				out = "broken: no COOKIE-ACK"
+				s.closeBoth()
+				return
+			}
+			ack := s.flight[1][0].raw
+			expiry := t0.Add(243 * time.Second)
+			deliverAtExpiry := func() {
+				time.AfterFunc(time.Until(expiry), func() {
+					for i := 0; i < spin; i++ {
+						runtime.Gosched()
+					}
+					s.conn[0].in <- ack
+				})
+			}
+			if early {
+				deliverAtExpiry()
+			}
+			for time.Until(expiry) > time.Second { // the retransmitted COOKIE-ECHOs are lost
+				time.Sleep(time.Second)
+				synctest.Wait()
+				s.mu.Lock()
+				s.fresh = nil
+				s.mu.Unlock()
+			}
+			if !early {
+				deliverAtExpiry()
+			}
+			time.Sleep(time.Second) // both timers fire
+			synctest.Wait()
+			buf := make([]byte, 1<<20)
+			dump := string(buf[:runtime.Stack(buf, true)])
+			stuck := false
+			for _, g := range strings.Split(dump, "\n\n") {
+				if strings.Contains(g, "onRetransmissionFailure") && strings.Contains(g, "completeHandshake") && strings.Contains(g, fmt.Sprintf("%p", a)) {
+					stuck = true
+				}
+			}
+			switch {
+			case stuck:
+				locked := !a.lock.TryLock()
+				if !locked {
+					a.lock.Unlock()
+				}
+				out = fmt.Sprintf("STUCK connect=%v state=%s lockHeld=%v", s.hsErr[0], getAssociationStateString(a.getState()), locked)
+			case s.hsErr[0] == nil:
+				out = "readloop-first"
+			default:
+				out = "callback-first"
+			}
+			s.closeBoth() // Close() releases a blocked completeHandshake
+		})
+		done <- out
+	}()
+	select {
+	case r := <-done:
+		return r
+	case <-time.After(2 * time.Second):
+		return "HANG waiting=[" + tdMutexWaiters() + "] holder=[" + tdHolders() + "]"
+	}
+}
+
+func TestVerifSimTeardownT1Race(t *testing.T) {
+	n := int(verifEnvInt("VERIF_N", 12000))
+	counts := map[string]int{}
+	printed, tried := 0, 0
+	for i := 0; i < n && printed == 0; i++ { // one observed failure decides
+		tried++
+		r := tdRaceAttempt(t, i%2 == 0, (i/2)%8)
+		key := strings.SplitN(r, " ", 2)[0]
+		counts[key]++
+		if key == "STUCK" || key == "HANG" {
+			printed++
+			fmt.Printf("SIMFAIL prop=C09 the handshake completed (connect returned the association) while the failure callback of T1-cookie was waiting for a.lock; the callback now blocks for ever in completeHandshake(err) holding a.lock: every call that needs the lock (Abort, OpenStream, WriteSCTP, the write loop) hangs until Close: %s (t1-callback-race-stuck) | crashpoint=handshake/COOKIE-ACK delivered at the instant of T1-cookie's final expiry (t0+243s)\n", r)
+		}
+	}
+	fmt.Printf("SIMTDRACE budget=%d attempts=%d stuck=%d hangs=%d callback_first=%d readloop_first=%d other=%d\n", n, tried,
+		counts["STUCK"], counts["HANG"], counts["callback-first"], counts["readloop-first"],
+		tried-counts["STUCK"]-counts["HANG"]-counts["callback-first"]-counts["readloop-first"])
+}
